@@ -1,5 +1,6 @@
-/- C37 — property theorems (proved ones) and the goals left to the tie (`*_goal : Prop`). -/
+/- C37 — property theorems. -/
 import TornadoModel.C37.Lemmas
+import TornadoModel.C37.Refine
 namespace TornadoModel.C37
 open TornadoModel.C36
 
@@ -83,17 +84,89 @@ example : effects (Runner.exec Code.gen 9 [none]
       (Code.load [.tset 83, .cread, .yld (.fut 0), .treset, .treset] 77) [.set 0 (.result 10), .tick])
     = [.k 83, .got (.n 10), .k 77, .k Code.noToken] := by decide
 
-/-- goal (tie only): for every generator, outcome assignment `oc` and schedule that settles futures according
-    to `oc`, the decorated driver and the native driver have both fed the generator a prefix of the untimed
-    meaning `canon`, and once finished they agree with it (hence with each other) in log and outcome -/
-def runner_refines_native_goal : Prop :=
-  ∀ (gen : Code.PS → Input → Step Code.PS) (oc : Nat → Outcome) (fuel : Nat) (st : List FState) (g : Code.PS)
-    (ops : List Op),
+/-- THE principal theorem (full statement: futures, lists/dicts through `multi`, moment/None, return, raise; no
+    side condition on the generator).  For every generator `gen` over every state type (an arbitrary resumable
+    object), every outcome assignment `oc` of the input futures and every schedule `ops` (any interleaving of
+    settle-now / settle-by-call_soon / loop iterations, i.e. every completion order) that settles futures according
+    to `oc`, from any initial state `st` of the futures consistent with `oc`: when the decorated driver (`Runner`,
+    the model of `@gen.coroutine`) and the native driver (`Native`, the specification: `async def` run as a task)
+    have both finished, they have fed the generator the same sequence of inputs and observed the same
+    effects/outputs (`log`), settled the result future with the same outcome, and both equal the untimed meaning
+    `canon` of the body.  How many loop iterations a step takes is not compared.  (The `fuelOut` hypotheses of
+    the stated goal are kept but not needed by the proof.) -/
+theorem runner_refines_native (gen : G → Input → Step G) (oc : Nat → Outcome) (fuel : Nat) (st : List FState)
+    (g : G) (ops : List Op) :
     (∀ f o, Op.set f o ∈ ops ∨ Op.soon f o ∈ ops → o = oc f) → (∀ f o, st[f]? = some (some o) → o = oc f) →
     let d := Runner.exec gen fuel st g ops
     let n := Native.exec gen fuel st g ops
     d.fuelOut = false → n.fuelOut = false → d.finished = true → n.finished = true →
       d.log = n.log ∧ d.result = n.result ∧
-      ∃ k, canon gen oc k g (.send .none) = (d.log, d.result)
+      ∃ k, canon gen oc k g (.send .none) = (d.log, d.result) := by
+  intro hops hst d n _ _ hd hn
+  have id := inv_runner_exec gen oc fuel st g ops hops hst
+  have inn := inv_native_exec gen oc fuel st g ops hops hst
+  have fd := id.trF hd
+  have fn := inn.trF hn
+  obtain ⟨e1, e2⟩ := trF_unique gen oc g _ _ _ _ fd fn
+  obtain ⟨k, r, hr, hc⟩ := fd
+  exact ⟨e1, e2, k, by rw [hc]; exact Prod.ext rfl hr.symm⟩
+
+/-- the goal as it was stated (generator state type fixed to the flat-code state) is an instance -/
+theorem runner_refines_native_flat :
+    ∀ (gen : Code.PS → Input → Step Code.PS) (oc : Nat → Outcome) (fuel : Nat) (st : List FState) (g : Code.PS)
+      (ops : List Op),
+      (∀ f o, Op.set f o ∈ ops ∨ Op.soon f o ∈ ops → o = oc f) → (∀ f o, st[f]? = some (some o) → o = oc f) →
+      let d := Runner.exec gen fuel st g ops
+      let n := Native.exec gen fuel st g ops
+      d.fuelOut = false → n.fuelOut = false → d.finished = true → n.finished = true →
+        d.log = n.log ∧ d.result = n.result ∧
+        ∃ k, canon gen oc k g (.send .none) = (d.log, d.result) :=
+  fun gen oc fuel st g ops => runner_refines_native gen oc fuel st g ops
+
+/-- non-vacuity: a body that awaits a pending future, a list (one child already failed), a moment, catches the
+    exception and returns — both drivers finish under this schedule, within the fuel, with a 5-event log -/
+example :
+    let ops := [Op.soon 1 (.result 7), .tick, .set 0 (.result 5), .tick, .tick, .tick, .tick, .tick]
+    let oc : Nat → Outcome := fun f => if f = 0 then .result 5 else if f = 1 then .result 7 else .exc 9
+    let st : List FState := [none, none, some (.exc 9)]
+    let code := [Code.Instr.push 5, .yld (.fut 0), .eff 1, .yld (.list [1, 2, 0]), .eff 2, .caught, .yld .moment,
+                 .yld (.list [0, 1]), .retLast]
+    let d := Runner.exec Code.gen 9 st (Code.load code) ops
+    let n := Native.exec Code.gen 9 st (Code.load code) ops
+    (∀ f o, Op.set f o ∈ ops ∨ Op.soon f o ∈ ops → o = oc f) ∧ (∀ f o, st[f]? = some (some o) → o = oc f) ∧
+    d.fuelOut = false ∧ n.fuelOut = false ∧ d.finished = true ∧ n.finished = true ∧
+    d.result = some (.result (.l [5, 7])) ∧ d.log.length = 5 := by
+  refine ⟨?_, ?_, by decide, by decide, by decide, by decide, by decide, by decide⟩
+  · intro f o h
+    simp only [List.mem_cons, Op.set.injEq, Op.soon.injEq, reduceCtorEq, List.not_mem_nil, or_false, false_or] at h
+    rcases h with ⟨rfl, rfl⟩ | ⟨rfl, rfl⟩ <;> rfl
+  · intro f o h
+    match f, h with
+    | 2, h => simp at h; subst h; rfl
+
+/-- the same at EVERY point of every schedule (nothing need have finished): each driver's log of resumptions is
+    exactly the first `log.length` resumptions of the untimed meaning, so at any moment one driver's log is a
+    prefix of the other's — the faster one has only got further in the same sequence of inputs fed / effects
+    and outputs observed -/
+theorem runner_native_prefix (gen : G → Input → Step G) (oc : Nat → Outcome) (fuel : Nat) (st : List FState)
+    (g : G) (ops : List Op)
+    (hops : ∀ f o, Op.set f o ∈ ops ∨ Op.soon f o ∈ ops → o = oc f)
+    (hst : ∀ f o, st[f]? = some (some o) → o = oc f) :
+    let d := Runner.exec gen fuel st g ops
+    let n := Native.exec gen fuel st g ops
+    (canon gen oc d.log.length g (.send .none)).1 = d.log ∧
+    (canon gen oc n.log.length g (.send .none)).1 = n.log ∧
+    (d.log <+: n.log ∨ n.log <+: d.log) := by
+  intro d n
+  have id := inv_runner_exec gen oc fuel st g ops hops hst
+  have inn := inv_native_exec gen oc fuel st g ops hops hst
+  exact ⟨inv_log gen oc g _ id, inv_log gen oc g _ inn, logs_comparable gen oc g _ _ id inn⟩
+
+/-- non-vacuity: mid-run the decorated driver (first step inline) is strictly ahead of the native one -/
+example :
+    let ops := [Op.set 0 (.result 5)]
+    let d := Runner.exec Code.gen 9 [none] (Code.load [.yld (.fut 0), .retLast]) ops
+    let n := Native.exec Code.gen 9 [none] (Code.load [.yld (.fut 0), .retLast]) ops
+    d.log.length = 1 ∧ n.log.length = 0 ∧ d.finished = false := by decide
 
 end TornadoModel.C37
